@@ -2367,6 +2367,12 @@ impl DnsIncoming {
     }
 
     fn read_char_string(&mut self) -> Result<String> {
+        if self.data.len() < self.offset + 1 {
+            return Err(e_fmt!(
+                "DNS Incoming: not enough data to read a char string"
+            ));
+        }
+
         let length = self.data[self.offset];
         self.offset += 1;
         self.read_string(length as usize)
